@@ -262,7 +262,10 @@ static void handler(const Line& t, Out& o) {
     break; }
   case 7: { // compute_icon_estimate: 7 lgk c
     const double v = compute_icon_estimate((uint8_t)t.at(1), (uint32_t)t.at(2));
-    o.E(db(v)); o.R(0); o.Fd(v);
+    o.E(db(v));
+    // the only libm value of the exponential branch: pow(2.0, c / k)
+    o.E(db(pow(2.0, static_cast<double>((uint32_t)t.at(2)) / static_cast<double>(1u << (uint8_t)t.at(1)))));
+    o.R(0); o.Fd(v);
     break; }
   case 8: { // cpc sketches
     const int src = (int)t.at(1);
